@@ -42,8 +42,11 @@ CLAIMED = {
     "C07": ("Theorems: on a sub-store every read gives the same result as on the complete store or a Missing* error naming a hash absent here "
             "and present there; reports are truthful (hash absent, correct root/key, prefix = exact nibble path to the reference); a failed "
             "set/delete leaves the whole state untouched (for the real hash; counterexample for a degenerate H machine-checked); the retry "
-            "loop for get/traverse converges to the complete-store result asking only for missing path nodes, each once (C07_retry_get). "
-            "Retry for set/delete is checked by the harness loop only.",
+            "loop for get/traverse converges to the complete-store result asking only for missing path nodes, each once (C07_retry_get); "
+            "set/delete over a sub-store give the same result and root as over the complete store or an atomic MissingTrieNode for a node "
+            "absent here and present there (C07_same_or_missing_set/delete) and their retry loop converges, each node asked once, on "
+            "non-pruning tries (C07_retry_set/delete). Pruning tries: three-outcome theorem C07_write_outcomes_*; the retry loop with "
+            "prune=True is checked by the harness loop.",
             "Coq proof + vm_compute correspondence over every single-node and random-subset removal", "5/C07", ""),
     "C08": ("Theorems (tree level, every canonical trie, every path): blank iff no key below; the node at a path is the canonical sub-trie; what "
             "a caller sees (incl. simulated nodes) is the annotation of THE canonical node for the keys below; partial-path fields; "
@@ -58,7 +61,10 @@ CLAIMED = {
             "Coq proof + vm_compute correspondence + in-Coq specification oracle", "5/C10", ""),
     "C12": ("Theorems (tree-level mirror of _set/_set_kv_node/_set_branch_node, every history over non-empty keys, every H): get = map model "
             "with the refusal rule; delete/delete_subtrie semantics incl. when they may be refused; a refused call changes nothing; the tree "
-            "is the canonical construction of its contents, hence root = bin_root, history independent, blank when empty.",
+            "is the canonical construction of its contents, hence root = bin_root, history independent, blank when empty. Database level "
+            "(Binary/BinD_write.v, C12_D_history / C12_D_raise / C12_D_append_only): for every history the stored root, every read, every "
+            "earlier root and every raising call of the byte-store machine agree with the tree level; the store is append-only. The "
+            "root_node getter/setter is in the model and tied by correspondence.",
             "Coq proof + vm_compute correspondence + in-Coq canonical-root oracle", "5/C12", ""),
     "C18": ("Theorems: in the API-layer model every call with an ill-typed / ill-sized argument returns the same state and the stated exception "
             "class (immediate from the definitions, as DESIGN says). The assurance for the code is the exhaustive correspondence: every "
